@@ -1,8 +1,9 @@
 import VlsModel.Drv.Common
-/- Line-protocol models serving property C13 (none yet). -/
+import VlsModel.Drv.Chain
+/- Line-protocol models serving property C13. -/
 namespace VlsModel.Drv.C13
 open VlsModel.Drv
 
-def models : List (String × Model) := []
+def models : List (String × Model) := [ ("tracker", Chain.trackerModel) ]
 
 end VlsModel.Drv.C13
